@@ -238,12 +238,7 @@ func caseC14Deep(t TB, prog *Program) {
 }
 
 func init() {
-	prev := replayers["C14"]
-	replayers["C14"] = func(t *testing.T, prog *Program) {
-		if _, ok := prog.Aux["deep"]; ok {
-			guardT(t, prog, func() { caseC14Deep(t, prog) })
-			return
-		}
-		prev(t, prog)
-	}
+	replayAlts = append(replayAlts, replayAlt{"C14", hasAux("deep"), func(t *testing.T, prog *Program) {
+		guardT(t, prog, func() { caseC14Deep(t, prog) })
+	}})
 }
